@@ -327,14 +327,14 @@ fn pick_step(w: &mut World) -> Step {
     STEPS[w.tape.weighted(&weights)]
 }
 
-enum ConnEnd {
+pub enum ConnEnd {
     Dead,
     Drop,
     Forget,
     OutOfSteps,
 }
 
-fn gen_disconnect(w: &mut World) -> DiscSpec {
+pub fn gen_disconnect(w: &mut World) -> DiscSpec {
     match w.tape.choose(5) {
         0 | 1 => DiscSpec { reason: None, props: None },
         2 => DiscSpec { reason: Some([0x00u8, 0x04, 0x80, 0x93][w.tape.choose(4) as usize]), props: None },
@@ -351,7 +351,7 @@ fn gen_disconnect(w: &mut World) -> DiscSpec {
     }
 }
 
-fn run_connection(conn: &mut Conn<'_, '_>, steps_left: &mut u32) -> ConnEnd {
+pub fn run_connection(conn: &mut Conn<'_, '_>, steps_left: &mut u32) -> ConnEnd {
     loop {
         if with(|w| w.cut) {
             return ConnEnd::OutOfSteps;
@@ -492,7 +492,7 @@ fn run_connection(conn: &mut Conn<'_, '_>, steps_left: &mut u32) -> ConnEnd {
 
 /// C16: switch all faults off and let a prompt, conformant broker answer everything.
 /// Returns true if the connection stayed up and the session quiesced.
-fn benign_drain(conn: &mut Conn<'_, '_>) -> bool {
+pub fn benign_drain(conn: &mut Conn<'_, '_>) -> bool {
     let (p, moved0, limit_bytes) = with(|w| {
         w.benign = true;
         let cur = w.cur;
@@ -602,7 +602,7 @@ fn benign_drain(conn: &mut Conn<'_, '_>) -> bool {
 }
 
 /// C12 tail: after the drain the session must be fully usable.
-fn usability_probe(conn: &mut Conn<'_, '_>) {
+pub fn usability_probe(conn: &mut Conn<'_, '_>) {
     let tx = with(|w| w.cfg.tx_len);
     if tx >= 48 {
         let spec = PubSpec {
@@ -673,7 +673,7 @@ fn usability_probe(conn: &mut Conn<'_, '_>) {
     }
 }
 
-fn final_phase(session: &mut Session<'_>, mut drained: bool) {
+pub fn final_phase(session: &mut Session<'_>, mut drained: bool) {
     with(|w| w.benign = true);
     let mut attempts = 0;
     while !drained && attempts < 3 {
@@ -818,9 +818,8 @@ pub fn final_wire_checks() {
     });
 }
 
-pub fn build_and_run(profile: Profile) {
-    let cfg = with(|w| w.cfg.clone());
-    let _ = profile;
+/// Build a `Session` from the run's configuration and hand it to `f`.
+pub fn with_session<R>(cfg: &RunCfg, f: impl FnOnce(&mut Session<'_>) -> R) -> R {
     let mut rx = vec![0u8; cfg.rx_len];
     let mut tx = vec![0u8; cfg.tx_len];
     let will_props: Vec<Property<'_>> = cfg.will.iter().flat_map(|w| w.props.iter()).map(to_minimq).collect();
@@ -847,6 +846,12 @@ pub fn build_and_run(profile: Profile) {
         b = b.auth(u, p).expect("auth once");
     }
     let mut session = Session::new(b);
-    scenario_general(&mut session);
+    f(&mut session)
+}
+
+pub fn build_and_run(profile: Profile) {
+    let cfg = with(|w| w.cfg.clone());
+    let _ = profile;
+    with_session(&cfg, |session| scenario_general(session));
     let _ = world::IO_CALLS_PER_POLL_LIMIT;
 }
